@@ -966,7 +966,9 @@ class SamplingMethod(DirectMethod):
             if var in self.signals:
                 target = stage.sample(var,'gist')[1]
                 opti.set_initial(target, ca.repmat(value,1,target.shape[1]), cache_advanced=True)
-            for k in list(range(self.N))+[-1]:
+            # k=-1 first: a control or per-interval variable at tf is the one of the last interval,
+            # which must keep the guess belonging to the start of that interval
+            for k in [-1]+list(range(self.N)):
                 target = self.eval_at_control(stage, var, k)
                 value_k = value
                 if target.numel()*(self.N)==value.numel() or target.numel()*(self.N+1)==value.numel():
